@@ -9,7 +9,7 @@ PROP = "C12"
 LEVEL = "exploration"
 RULE = ("1..4 TPDOs with generated mappings (1..8 objects of 1/2/3/4 bytes, <= 8 bytes) x (type 254/255/1..240, inhibit, event time) x "
         "histories of value changes through CODictWr*/SDO, explicit triggers (PDO number, object), received SYNCs, ticks, NMT changes "
-        "(OP->PREOP->OP round trips, STOP, reset communication), event-time writes and COB-ID invalidate/re-validate while OPERATIONAL; the "
+        "(OP->PREOP->OP round trips, STOP, reset communication), event-time writes and COB-ID invalidate/re-validate while OPERATIONAL, leaving OPERATIONAL / invalidating while the timer event of a TPDO is served but not yet processed; the "
         "(tick, identifier, dlc, data) TPDO emissions of every step are compared with a reference model in ticks, plus a systematic sweep of "
         "(inhibit, event, trigger offset) in {0..6}^3 x 10 ticks (every relative order and coincidence of trigger, inhibit end and event expiry); non-trivial = history with >= 1 deferred (inhibited) transmission, event "
         "expiry or n-th-SYNC transmission; distinct by script")
@@ -269,6 +269,8 @@ def run_history(res, exe, rng, first, sweep=None):
                     op = ("sync",)
                 elif x < 0.93:
                     op = ("nmt", rng.choice([1, 1, 128, 2, 130, 1]))
+                elif x < 0.95:
+                    op = ("pending", rng.choice(["preop", "stop", "invalidate", "reset"]))
                 elif x < 0.97:
                     op = ("event", rng.randrange(len(tps)), rng.choice([0, 1, 3, 10]))
                 else:
@@ -330,6 +332,40 @@ def run_history(res, exe, rng, first, sweep=None):
                     m.mode = STOP; m.leave_op()
                 else:
                     m.mode = PREOP; m.leave_op()
+            elif op[0] == "pending":
+                # the nearest inhibit end / event expiry has been served by the tick interrupt but is not processed yet when the node
+                # leaves OPERATIONAL (or the COB-ID of that TPDO is marked invalid); then the timer processing runs. A TPDO is
+                # transmitted only in OPERATIONAL and only while its COB-ID is valid: the pending transmission must not happen.
+                if m.mode != OP or any(tp.active and tp.ev_window is not None for tp in tps):
+                    continue
+                cand = [(x_, tp) for tp in tps if tp.active for x_ in (tp.inh_until, tp.ev_deadline) if x_ is not None and x_ > now]
+                if not cand:
+                    continue
+                T, tgt = min(cand, key=lambda c: c[0])
+                if T - now > 300:
+                    continue
+                what = op[1]
+                script.append("svc %d (timer event of TPDO%d pending @%d); %s; tproc" % (T - now, tgt.num, T, what))
+                evs = sim.cmd("svc %d" % (T - now))
+                m.advance(now, T - 1, {})
+                if S.txs(evs) or m.out:
+                    fail("harness/pending", "frames during the tick service: %r / model %r" % (S.txs(evs), m.out)); return
+                if what == "invalidate":
+                    newv = tgt.cobid | 0x80000000
+                    code, evs = S.sdo_write(sim, nid, 0x1800 + tgt.num, 1, newv, 4)
+                    if code is not None:
+                        fail("cobid-write-refused", "COB-ID invalidation refused: %r" % code); return
+                    tgt.cobid = newv
+                    m.activate(tgt, T)
+                else:
+                    cs = {"preop": 128, "stop": 2, "reset": 130}[what]
+                    evs = sim.rx(0, bytes([cs, nid]))
+                    m.mode = STOP if cs == 2 else PREOP
+                    m.leave_op()
+                evs = evs + sim.cmd("tproc")
+                m.sent_this_tick = {}
+                m.advance(T - 1, T, {})
+                res.counters["pending_event_cancelled_by_" + what] += 1
             elif op[0] == "event":
                 _, k, ms = op
                 tp = tps[k]
